@@ -226,7 +226,8 @@ pub fn run_check(plan: &CheckPlan) -> CheckResult {
         let next = Arc::new(AtomicU64::new(0));
         let limit = Arc::new(AtomicU64::new(*runs));
         let mut handles = Vec::new();
-        for _ in 0..plan.workers {
+        let engine_index = plan.engines.iter().position(|(e, _)| e.name() == eng.name()).unwrap_or(0) as u64;
+        for slot in 0..plan.workers {
             let (next, limit, agg, eng, deadline_hit) = (next.clone(), limit.clone(), agg.clone(), eng.clone(), deadline_hit.clone());
             let prop = plan.prop.clone();
             let seed = plan.seed;
@@ -242,7 +243,9 @@ pub fn run_check(plan: &CheckPlan) -> CheckResult {
                 }
                 let run_seed = mix(mix(seed, prop_hash(&prop)), mix(i, prop_hash(eng.name())));
                 let (e2, p2) = (eng.clone(), prop.clone());
+                crate::abort::enter(slot, engine_index, i);
                 let rec = on_fresh_thread(run_seed, move || e2.generate(run_seed, &p2));
+                crate::abort::leave(slot);
                 let mut a = agg.lock().unwrap();
                 a.runs += 1;
                 *a.per_engine_runs.entry(rec.engine.to_string()).or_insert(0) += 1;
@@ -442,6 +445,28 @@ pub fn cmd_replay(engines: &[Arc<dyn Engine>], path: &str, verbose: bool) -> i32
         eprintln!("harness error: unknown engine {}", rf.engine);
         return 2;
     };
+    // a recorded abort can only be reproduced in a child process: the reproduction is its death
+    let is_abort = rf.violation.as_ref().map(|v| v.code.ends_with(".abort")).unwrap_or(false);
+    if is_abort && std::env::var("VERIF_REPLAY_INPROC").is_err() {
+        let exe = std::env::current_exe().expect("own path");
+        let st = std::process::Command::new(exe).arg("replay").arg(path).env("VERIF_REPLAY_INPROC", "1").stdout(std::process::Stdio::null()).stderr(std::process::Stdio::null()).status();
+        use std::os::unix::process::ExitStatusExt;
+        return match st {
+            Ok(s) if s.signal().is_some() || s.code() == Some(134) => {
+                println!("violation {}: the replay process was killed ({:?}) while executing the recorded commands", rf.violation.as_ref().unwrap().code, s);
+                println!("VIOLATION property={} replay={}", rf.property, path);
+                1
+            }
+            Ok(_) => {
+                println!("recorded abort does not reproduce on this tree");
+                0
+            }
+            Err(e) => {
+                eprintln!("harness error: cannot start the replay child: {e}");
+                2
+            }
+        };
+    }
     let (o, log) = run_replay(eng.as_ref(), &rf, verbose);
     if verbose {
         for l in &log {
@@ -484,6 +509,57 @@ pub fn cmd_replay(engines: &[Arc<dyn Engine>], path: &str, verbose: bool) -> i32
 }
 
 /// Dev tool: write run `idx` of a check as a replay file (optionally minimised on its known hit).
+/// `sim isolate`: one run in this process with the command tee on. Returns normally (0) when the run
+/// does not kill the process.
+pub fn cmd_isolate(engine: &Arc<dyn Engine>, prop: &str, seed: u64, idx: u64, tee: &str) -> i32 {
+    let run_seed = mix(mix(seed, prop_hash(prop)), mix(idx, prop_hash(engine.name())));
+    crate::abort::tee_start(tee);
+    let (e2, p2) = (engine.clone(), prop.to_string());
+    let rec = on_fresh_thread(run_seed, move || e2.generate(run_seed, &p2));
+    println!("run {idx} of {} ended normally ({} commands)", engine.name(), rec.cmds.len());
+    0
+}
+
+/// `sim abortreplay`: turns the tee of an aborted run into a replay file (nothing is executed).
+pub fn cmd_abortreplay(engine: &Arc<dyn Engine>, prop: &str, seed: u64, idx: u64, tee: &str, out: &str) -> i32 {
+    let Ok(txt) = std::fs::read_to_string(tee) else {
+        eprintln!("harness error: cannot read {tee}");
+        return 2;
+    };
+    let mut lines = txt.lines().filter_map(|l| serde_json::from_str::<Value>(l).ok());
+    let Some(head) = lines.next() else {
+        eprintln!("harness error: empty tee {tee}");
+        return 2;
+    };
+    let commands: Vec<Value> = lines.collect();
+    let run_seed = mix(mix(seed, prop_hash(prop)), mix(idx, prop_hash(engine.name())));
+    let rf = ReplayFile {
+        format: 1,
+        engine: engine.name().to_string(),
+        property: prop.to_string(),
+        profile: head["profile"].as_str().unwrap_or("").to_string(),
+        seed,
+        run_index: idx,
+        thread_seed: run_seed,
+        expect: "violation".into(),
+        config: head["config"].clone(),
+        violation: Some(Violation {
+            property: prop.to_string(),
+            code: format!("{prop}.abort"),
+            step: commands.len(),
+            detail: "the process was killed (allocation failure, stack overflow or a panic while panicking) inside the code under test while executing these commands".into(),
+            finding: String::new(),
+        }),
+        trace: String::new(),
+        original_commands: commands.len(),
+        commands,
+        note: "recorded from the command tee of a run that killed the process; not minimised (every candidate would have to run in its own process)".into(),
+    };
+    std::fs::write(out, serde_json::to_string_pretty(&rf).unwrap()).unwrap();
+    println!("wrote {out} ({} commands)", rf.commands.len());
+    0
+}
+
 pub fn cmd_mkreplay(engine: &Arc<dyn Engine>, prop: &str, seed: u64, idx: u64, out: &str, known: bool) -> i32 {
     let run_seed = mix(mix(seed, prop_hash(prop)), mix(idx, prop_hash(engine.name())));
     let (e2, p2) = (engine.clone(), prop.to_string());
